@@ -5,11 +5,13 @@
    minimal one that the documented precedence and associativity require, and every mixture in between is covered by the same theorem.
    Layout (blanks, newlines, comments) is removed by the tokenizer; that the token list does not depend on how the text is delivered,
    and that token texts and positions are exact, is C18.
-   Proofs: Proofs/ParserRoundTrip.v (with QuoteProofs.v for string / pattern literals and escapes, ParserFuel.v). *)
+   Proofs: Proofs/ParserRoundTrip.v (with QuoteProofs.v for string / pattern literals and escapes, ParserFuel.v); Proofs/LexRender.v for the
+   step from BYTES to tokens: C07_text_tree states the property on source text (bytes), for every placement of redundant parentheses and
+   every white-space separator. *)
 From Coq Require Import ZArith List Bool.
 Import ListNotations.
-From Cedar Require Import Lang.Value Impl.Like Lang.Expr Impl.Scanner Impl.Tokenizer Impl.Quote Impl.Parser Impl.Printer Lang.RoundTrip
-  Proofs.QuoteProofs Proofs.ParserRoundTrip Proofs.DecoderTotal.
+From Cedar Require Import Lang.Value Impl.Like Lang.Expr Impl.Scanner Impl.Tokenizer Lang.Cursor Impl.Quote Impl.Parser Impl.Printer Lang.RoundTrip
+  Proofs.QuoteProofs Proofs.ParserRoundTrip Proofs.DecoderTotal Proofs.LexRender.
 Local Open Scope Z_scope.
 
 Section C07.
@@ -40,6 +42,24 @@ Section C07.
   Theorem C07_string_literal : forall s, nonneg s -> Base.Utf8Enc.valid_utf8 s = true ->
     string_value (quote_string is_printable is_gext s) = Some s.
   Proof. exact (string_value_quote is_printable is_gext). Qed.
+
+  (* source TEXT: the bytes of any rendering of a policy list - minimal or with redundant parentheses anywhere, policies separated by any
+     white space - tokenize and parse to exactly those policies (precedence, associativity, unary chains, `has` paths, `is .. in`,
+     method calls, literals, annotations, scopes, conditions), in order *)
+  Theorem C07_text_tree : forall sep ps, all_ws sep ->
+    Forall (fun ap => policy_ok set_order (fst ap) (snd ap) = true) ps ->
+    exists f0, forall f, (f0 <= f)%nat -> exists ts,
+      spec_tokenize f (render (doc_items is_printable is_gext set_order print_ip extra sep ps)) = Some (Some ts) /\
+      exists res last, p_policies f ts [] = POk res [last] /\ t_type last = TEOF /\
+        map (fun pp => (pp_annots pp, pp_policy pp)) res = map (fun ap => (fst ap, norm_policy set_order print_ip (snd ap))) ps.
+  Proof. exact (text_roundtrip_document_gen is_printable is_gext set_order print_ip extra print_ip_plain). Qed.
+
+  (* the tokenizer reads the printer's tokens off the rendered bytes of an expression *)
+  Theorem C07_expr_lexes : forall e, expr_ok set_order e = true ->
+    exists f0, forall f, (f0 <= f)%nat -> exists ts,
+      spec_tokenize f (render (expr_items is_printable is_gext set_order print_ip extra e)) = Some (Some ts) /\
+      map strip ts = toks (expr_items is_printable is_gext set_order print_ip extra e) ++ [(TEOF, [])].
+  Proof. exact (lex_render_expr is_printable is_gext set_order print_ip extra print_ip_plain). Qed.
 End C07.
 
 (* the parser terminates on every token list the tokenizer can produce (never loops on malformed input) *)
@@ -48,5 +68,7 @@ Proof. exact p_policies_total. Qed.
 
 Print Assumptions C07_expr_tree.
 Print Assumptions C07_policy_tree.
+Print Assumptions C07_text_tree.
+Print Assumptions C07_expr_lexes.
 Print Assumptions C07_string_literal.
 Print Assumptions C07_parser_total.
